@@ -1127,13 +1127,13 @@ func (env *SpecEnv) viewCall(e *Expr) *SV {
 
 // abstract views: uninterpreted functions of the reference; "cursor" is a ghost heap field.
 // ghostFields: state-dependent abstract values attached to a reference (ghost heap fields)
-var ghostFields = map[string]bool{"cursor": true, "fpos": true, "bigVal": true}
+var ghostFields = map[string]bool{"cursor": true, "fpos": true, "bigVal": true, "seq": true}
 
-var abstractViews = map[string]bool{"bigVal": true, "RLen": true, "RBit": true, "cursor": true, "FLen": true, "FByte": true, "FBit": true, "fpos": true}
+var abstractViews = map[string]bool{"seq": true, "bigVal": true, "RLen": true, "RBit": true, "cursor": true, "FLen": true, "FByte": true, "FBit": true, "fpos": true}
 
 func (x *Exec) abstractView(env *SpecEnv, name string, a *SV, e *Expr) *SV {
 	switch name {
-	case "cursor", "fpos", "bigVal":
+	case "cursor", "fpos", "bigVal", "seq":
 		comp := "G$" + name
 		m := x.comp(env.heap, comp, SArray(SInt, SInt))
 		return &SV{T: Select(m, a.T)}
